@@ -12,6 +12,8 @@ ICC_FAMILY = [
     bytes.fromhex('5f2a020978') + bytes.fromhex('9a03210304') + bytes.fromhex('9505') + bytes(5),
     bytes.fromhex('9f3303e0f0c8') + bytes.fromhex('00'),                      # low-value tag ends the walk
     bytes.fromhex('8400') + bytes.fromhex('9f100102'),                         # zero-length value
+    bytes.fromhex('9f0206000000001000') + bytes.fromhex('00') + bytes.fromhex('9503000480'),   # low-values tag in the middle: the walk stops there
+    bytes.fromhex('82020040') + bytes.fromhex('00') + bytes.fromhex('9505ffffffffff'),
 ]
 
 
